@@ -40,13 +40,13 @@ func sessionFrame(t *rapid.T, l string) ([]byte, string) {
 	case "sign":
 		blob := vh.SSHPub(held).Marshal()
 		if rapid.Bool().Draw(t, l+"signCert") {
-			blob = poolCert(held).Marshal()
+			blob = cert() // the held key's certificate, an expired / not-yet-valid / host / free-text variant, or another key's
 		}
 		return append(append(append([]byte{13}, sshString(blob)...), sshString([]byte("data"))...), 0, 0, 0, 0), "sign"
 	case "remove":
 		blob := vh.SSHPub(held).Marshal()
 		if rapid.Bool().Draw(t, l+"removeCert") {
-			blob = poolCert(held).Marshal()
+			blob = cert()
 		}
 		return append([]byte{18}, sshString(blob)...), "remove"
 	case "removeall":
@@ -61,7 +61,7 @@ func sessionFrame(t *rapid.T, l string) ([]byte, string) {
 
 func TestC12Sessions(t *testing.T) {
 	vh.Run(t, vh.Spec[StreamCase]{Property: "C12", Name: "TestC12Sessions", Journal: true,
-		Rule: "3..14 complete, well-formed frames as one client sends them over a session, drawn from a SMALL alphabet so that requests meet the state earlier ones left behind: add-hardware-certificate (both encodings) of the certificate over the key the underlying agent holds / of an expired, not-yet-valid, host or free-text variant of it / of a certificate over another key; lock and unlock with one of three passphrases; list, sign (key or certificate), remove (key or certificate), remove-all, an extension request, unknown codes, list-slots - served by the real NewServer(remote=true) over shim agent + proxy + keyring; each case is journaled first, so a stream that kills the process is reported with its frames. Oracle: TestC12StreamReal's (no crash, one response per frame, in order, nothing after the end, clean end => nil). Non-trivial: a certificate is registered twice, or a frame follows a lock.",
+		Rule: "3..14 complete, well-formed frames as one client sends them over a session, drawn from a SMALL alphabet so that requests meet the state earlier ones left behind: add-hardware-certificate (both encodings) of the certificate over the key the underlying agent holds / of an expired, not-yet-valid, host or free-text variant of it / of a certificate over another key; lock and unlock with one of three passphrases; list, sign and remove naming the key or any of those certificates, remove-all, an extension request, unknown codes, list-slots - served by the real NewServer(remote=true) over shim agent + proxy + keyring; each case is journaled first, so a stream that kills the process is reported with its frames. Oracle: TestC12StreamReal's (no crash, one response per frame, in order, nothing after the end, clean end => nil). Non-trivial: a certificate is registered twice, or a frame follows a lock.",
 		Gen: func(t *rapid.T) StreamCase {
 			c := StreamCase{Real: true, Tail: "clean"}
 			n := rapid.IntRange(3, 14).Draw(t, "nframes")
